@@ -63,8 +63,9 @@ Finished == Open = {} /\ Cardinality(Started) >= want /\ \A k \in Keys : cache[k
 
 \* TLC's simulator computes every successor state of a step and picks one uniformly: the big choices (the
 \* answer of a relay, the configurations of the next auction) are drawn with RandomElement (which follows
-\* -seed; bound with \E x \in {RandomElement(S)} so that every use sees the same draw) instead of being enumerated, and the weights of the environment's moves are explicit (w is part
-\* of the recorded step so that the copies are distinct states)
+\* -seed; bound with \E x \in {RandomElement(S)} so that every use sees the same draw) instead of being
+\* enumerated, and the weights of the environment's moves are explicit (w is part of the recorded step so
+\* that the copies are distinct states)
 NextIdle == CHOOSE i \in Auc : st[i] = "idle" /\ \A j \in Auc : j < i => st[j] # "idle"
 FreeKeys == {k \in Keys : cache[k] = Unset /\ \A j \in Open : key[j] # k}
 
